@@ -15,6 +15,7 @@ pub mod c12;
 pub mod c13;
 pub mod c14;
 pub mod c15;
+pub mod c16;
 pub mod c17;
 pub mod c18;
 pub mod c19;
@@ -91,6 +92,7 @@ pub fn dispatch(c: &mut Ctx) -> bool {
         "C13" => c13::run(c),
         "C14" => c14::run(c),
         "C15" => c15::run(c),
+        "C16" => c16::run(c),
         "C17" => c17::run(c),
         "C18" => c18::run(c),
         "C19" => c19::run(c),
